@@ -129,8 +129,11 @@ def generic_statement(k: K.Kit, st: tuple) -> Obj:
     return k.new(K.GK, "Triple" if len(terms) == 3 else "Quad", *terms)
 
 
-def rdflib_statement(k: K.Kit, st: tuple) -> Obj:
+def rdflib_statement(k: K.Kit, st: tuple, plain: bool = False) -> Any:
+    """pyjelly's Triple/Quad named tuples, or (plain=True) the bare tuples rdflib itself yields (Graph.triples, Dataset.quads)."""
     terms = [build_rdflib(t) for t in st]
+    if plain:
+        return tuple(terms)
     return k.new(K.RP, "Triple" if len(terms) == 3 else "Quad", *terms)
 
 
@@ -317,8 +320,8 @@ def rdflib_store_for(k: K.Kit, physical: int, stmts: list[tuple], namespaces: li
 
 def write_rdflib(k: K.Kit, physical: int, stmts: list[tuple], opts: Obj, *, via: str = "store", namespaces: list | None = None) -> tuple[list, Obj]:
     it = k.it
-    if via == "flat":
-        frames = it.drain(k.call(k.get(K.RS, "flat_stream_to_frames"), k.generator([rdflib_statement(k, st) for st in stmts]), opts))
+    if via in ("flat", "flat-plain"):
+        frames = it.drain(k.call(k.get(K.RS, "flat_stream_to_frames"), k.generator([rdflib_statement(k, st, plain=via == "flat-plain") for st in stmts]), opts))
         streams = [e["obj"] for e in it.events if e["kind"] == "setattr" and e["attr"] == "flow" and isinstance(e.get("obj"), Obj) and isinstance(e.get("value"), Obj)]
         return frames, streams[-1]
     stream = k.method(k.get(K.ST, STREAM_FOR[physical]), "for_rdflib", opts)
@@ -331,7 +334,7 @@ def write_rdflib(k: K.Kit, physical: int, stmts: list[tuple], opts: Obj, *, via:
     if via == "store":
         data: Any = rdflib_store_for(k, physical, stmts, namespaces)
     else:
-        data = k.generator([rdflib_statement(k, st) for st in stmts])
+        data = k.generator([rdflib_statement(k, st, plain=via == "generator-plain") for st in stmts])
     frames = it.drain(k.call(k.get(K.RS, "stream_frames"), stream, data))
     return frames, stream
 
